@@ -237,17 +237,27 @@ enum Probe {
     Other,
 }
 
-/// the call into the crate: (optionally an address-space switch first,) constructor, then (if it
-/// succeeded) the two uses of the mapper
+/// the call into the crate: constructor, then (if it succeeded) the two uses of the mapper
 #[inline(never)]
-fn call_new(addr: u64, probe: Option<u64>, switch_to: Option<u64>) -> (Ctor, Option<(u64, Probe)>) {
-    if let Some(new) = switch_to {
-        use x86_64::registers::control::Cr3;
-        use x86_64::structures::paging::PhysFrame;
-        let (old, _) = Cr3::read_raw();
-        core::hint::black_box(old);
-        unsafe { Cr3::write_raw(PhysFrame::containing_address(x86_64::PhysAddr::new(new & ADDR)), (new & 0xfff) as u16) };
-    }
+fn call_new(addr: u64, probe: Option<u64>) -> (Ctor, Option<(u64, Probe)>) {
+    ctor_and_probe(addr, probe)
+}
+
+/// the same after an address-space switch in the same function (read the old root, load the new
+/// one, build the mapper of the new space): straight-line code, so that every read of the root
+/// register ends up in one basic block after inlining
+#[inline(never)]
+fn call_new_switched(addr: u64, probe: Option<u64>, new: u64) -> (u64, (Ctor, Option<(u64, Probe)>)) {
+    use x86_64::registers::control::{Cr3, Cr3Flags};
+    use x86_64::structures::paging::PhysFrame;
+    let (old, flags) = Cr3::read();
+    unsafe { Cr3::write(PhysFrame::containing_address(x86_64::PhysAddr::new(new & ADDR)), Cr3Flags::from_bits_truncate(new & 0x18)) };
+    let r = ctor_and_probe(addr, probe);
+    (old.start_address().as_u64() | flags.bits(), r)
+}
+
+#[inline(always)]
+fn ctor_and_probe(addr: u64, probe: Option<u64>) -> (Ctor, Option<(u64, Probe)>) {
     let table: &mut PageTable = unsafe { &mut *(core::hint::black_box(addr) as *mut PageTable) };
     match RecursivePageTable::new(table) {
         Err(InvalidPageTable::NotRecursive) => (Ctor::NotRecursive, None),
@@ -354,7 +364,19 @@ pub fn run(rp: &Replay, st: &mut Stats) -> Option<Violation> {
                 }
                 let switch_from = s["switch_from"].as_u64().map(|x| x & (ADDR | 0x18));
                 world().cpu.cr3 = switch_from.unwrap_or(cr3);
-                let res = sut_call("RecursivePageTable::new", || call_new(addr, probe_addr, switch_from.map(|_| cr3)));
+                // (Cr3::write takes typed flags: only bits 3 and 4 of the new value survive)
+                let cr3 = if switch_from.is_some() { cr3 & (ADDR | 0x18) } else { cr3 };
+                let expected = if !recursive {
+                    Ctor::NotRecursive
+                } else if slot & PRESENT != 0 && slot & ADDR == cr3 & ADDR {
+                    Ctor::Ok
+                } else {
+                    Ctor::NotActive
+                };
+                let res = sut_call("RecursivePageTable::new", || match switch_from {
+                    Some(_) => call_new_switched(addr, probe_addr, cr3).1,
+                    None => call_new(addr, probe_addr),
+                });
                 st.calls += 1;
                 let trace = std::mem::take(&mut world().cpu.trace);
                 drop(maps);
